@@ -605,6 +605,9 @@ func (vc *VC) maxLen() *Term {
 func (fr *frame) addrOf(st *State, pv *Val, ptrT types.Type, pos token.Pos) *Addr {
 	vc := fr.vc
 	if pv.Addr != nil {
+		if pv.Addr.Nil != nil {
+			vc.oblige("safety.nil", st, Not(pv.Addr.Nil), pos, "nil pointer dereference")
+		}
 		return pv.Addr
 	}
 	pt, ok := ptrT.Underlying().(*types.Pointer)
@@ -740,6 +743,11 @@ func (fr *frame) execBlock(b *ssa.BasicBlock, st *State, ins map[*ssa.BasicBlock
 		case *ssa.Return:
 			var rs []*Val
 			for _, r := range in.Results {
+				if rv := fr.val(st, r); !fr.top && rv.Addr != nil && rv.T == nil {
+					// interior pointer returned by an inlined callee: keep the address symbolic
+					rs = append(rs, &Val{Addr: rv.Addr, Go: r.Type()})
+					continue
+				}
 				rs = append(rs, &Val{T: fr.term(st, r), Go: r.Type()})
 			}
 			fr.rets = append(fr.rets, &retInfo{st: st, results: rs, pos: in.Pos()})
@@ -790,6 +798,18 @@ func (fr *frame) execInstr(st *State, in ssa.Instruction) {
 		if a == nil {
 			return
 		}
+		if sv := fr.val(st, in.Val); sv.Addr != nil && sv.T == nil && a.Kind == ALocal && len(a.Path) == 0 {
+			// an interior pointer kept in a local variable stays symbolic
+			if st.laddr == nil {
+				st.laddr = map[*ssa.Alloc]*Addr{}
+			}
+			st.laddr[a.Alloc] = sv.Addr
+			st.locals[a.Alloc] = IntLit64(1)
+			return
+		}
+		if a.Kind == ALocal && st.laddr != nil {
+			delete(st.laddr, a.Alloc)
+		}
 		vc.store(st, a, fr.term(st, in.Val))
 	case *ssa.UnOp:
 		fr.execUnOp(st, in)
@@ -801,7 +821,11 @@ func (fr *frame) execInstr(st *State, in ssa.Instruction) {
 		stt := pt.Elem().Underlying().(*types.Struct)
 		ft := stt.Field(in.Field).Type()
 		if xv.Addr != nil {
+			if xv.Addr.Nil != nil {
+				vc.oblige("safety.nil", st, Not(xv.Addr.Nil), in.Pos(), "nil pointer dereference (field "+stt.Field(in.Field).Name()+")")
+			}
 			na := *xv.Addr
+			na.Nil = nil
 			na.Path = append(append([]Proj{}, xv.Addr.Path...), Proj{Field: in.Field})
 			na.Typ = ft
 			fr.vals[in] = &Val{Addr: &na, Go: in.Type()}
@@ -941,6 +965,12 @@ func (fr *frame) execUnOp(st *State, in *ssa.UnOp) {
 		if a == nil {
 			fr.vals[in] = &Val{T: vc.fresh("load", vc.sortOf(in.Type())), Go: in.Type()}
 			return
+		}
+		if a.Kind == ALocal && len(a.Path) == 0 && st.laddr != nil {
+			if la, ok := st.laddr[a.Alloc]; ok {
+				fr.vals[in] = &Val{Addr: la, Go: in.Type()}
+				return
+			}
 		}
 		v := vc.load(st, a)
 		fr.setT(in, v)
@@ -1098,8 +1128,13 @@ func (fr *frame) execBinOp(st *State, in *ssa.BinOp) {
 		xv, yv := fr.val(st, in.X), fr.val(st, in.Y)
 		switch {
 		case xv.Addr != nil && xv.T == nil || yv.Addr != nil && yv.T == nil:
-			// interior pointer compared (with nil): never nil
+			// interior pointer compared (with nil): nil only where a merged return said so
 			eq = TFalse
+			if xv.Addr != nil && xv.Addr.Nil != nil {
+				eq = xv.Addr.Nil
+			} else if yv.Addr != nil && yv.Addr.Nil != nil {
+				eq = yv.Addr.Nil
+			}
 		case x.S.K == KIface:
 			eq = And(Eq(vc.ifTag(x), vc.ifTag(y)), Eq(vc.ifVal(x), vc.ifVal(y)))
 			if c, ok := in.Y.(*ssa.Const); ok && c.Value == nil {
@@ -1153,6 +1188,7 @@ func (vc *VC) bitop(op string, x, y *Term, t types.Type) *Term {
 			return App("bvand", x.S, x, App("bvnot", x.S, y))
 		}
 	}
+	x, y = foldInt(x), foldInt(y)
 	xv, xok := intLitVal(x)
 	yv, yok := intLitVal(y)
 	if w, uns := isUnsignedType(t); uns && !(xok && yok) {
@@ -1215,6 +1251,9 @@ func (vc *VC) bitop(op string, x, y *Term, t types.Type) *Term {
 }
 
 func (vc *VC) shift(st *State, op token.Token, x, y *Term, xt, yt types.Type, pos token.Pos) *Term {
+	if !vc.isBV() {
+		x, y = foldInt(x), foldInt(y)
+	}
 	xw, xs, _ := intInfo(xt)
 	yw, ys, _ := intInfo(yt)
 	if ys {
